@@ -230,7 +230,18 @@ async def _main(case, obs, loop, net):
     if cfg.get("mode", "assign") == "assign":
         consumer.assign(tps)
     else:
-        consumer.subscribe(sorted({t.topic for t in tps}))
+        listener = None
+        if case.get("record_assignments"):
+            from aiokafka import ConsumerRebalanceListener
+
+            class L(ConsumerRebalanceListener):
+                def on_partitions_revoked(self, revoked):
+                    obs.events.append({"op": "revoked", "task": -1, "t": loop._vtime, "tps": sorted(tpk(*x) for x in revoked)})
+
+                def on_partitions_assigned(self, assigned):
+                    obs.events.append({"op": "assigned", "task": -1, "t": loop._vtime, "tps": sorted(tpk(*x) for x in assigned)})
+            listener = L()
+        consumer.subscribe(sorted({t.topic for t in tps}), listener=listener)
     try:
         await asyncio.wait_for(consumer.start(), 60.0)
     except Exception as e:
